@@ -205,7 +205,7 @@ def check_pd(case, stats: Stats) -> None:
         stats.cls("pd:scalar-raises")
         if t != "exc":
             raise Violation(f"{case['func']}: scalar {name} raises {type(first_exc[1]).__name__} on a cell but the bulk call returned")
-        if type(v) is not type(first_exc[1]):
+        if not isinstance(v, type(first_exc[1])) and not isinstance(first_exc[1], type(v)):
             raise Violation(f"{case['func']}: bulk raised {type(v).__name__}, the scalar call raises {type(first_exc[1]).__name__}")
         return
     if t == "exc":
